@@ -133,8 +133,9 @@ unit(K("cache_dir_ops", "c02_cleanup_temp_by_age", functions=CDIR, bounds="2 tem
 unit(K("cache_dir_ops", "c02_cleanup_temp_missing_dir", functions=CDIR, timeout=600))
 
 # ---- sharded cache ------------------------------------------------------------------------------------
-for n in ["sharded_get_01", "sharded_get_10", "sharded_touch_01", "sharded_set_01_seq", "sharded_put_10_seq", "sharded_set_01_env",
-          "sharded_put_01_fault", "sharded_write_notrigger", "sharded_invalid_names"]:
+for n in ["sharded_get_01", "sharded_get_10", "sharded_touch_01", "sharded_set_absent", "sharded_set_in_secondary", "sharded_set_in_primary_heavy",
+          "sharded_put_in_secondary", "sharded_put_absent_heavy", "sharded_set_absent_env", "sharded_put_absent_fault",
+          "sharded_write_notrigger", "sharded_invalid_names"]:
     unit(K("sharded_ops", n, functions=SHARDED, timeout=3600, mem_gb=12,
            bounds="3 shards, candidate shards fixed to (0,1)/(1,0) (mapping itself: engine M), each shard dir present/missing, "
                   "key absent / in primary / in secondary, arbitrary load estimates"))
@@ -147,10 +148,13 @@ unit(K("sharded_ops", "sharded_ops_sanity_twin", functions=SHARDED, expect="fail
 _root = os.path.dirname(os.path.dirname(os.path.dirname(os.path.abspath(__file__))))
 STACK_NAMES = re.findall(r"stack_harness!\((\w+),", open(os.path.join(_root, "harness", "stack_ops.rs")).read())
 for n in STACK_NAMES:
-    unit(K("stack_ops", n, functions=STACK, timeout=3600, mem_gb=14,
+    unit(K("stack_ops", n, functions=STACK, timeout=2400, mem_gb=14,
            bounds="per level: key absent / value A / value B; populate outcome {value, NotFound, other error}; judge answer any",
            panic_ok=("auto_sync failed, and failure semantics are unclear",) if "fault" in n else ()))
 unit(K("stack_ops", "stack_ops_sanity_twin", functions=STACK, expect="fail", timeout=3600, mem_gb=14))
+
+unit(K("readonly_ops", "readonly_builder_equiv", functions=["readonly::ReadOnlyCacheBuilder::{new,plain,byte_equality_checker,take,build}"],
+       bounds="two plain levels, checker configured or not", timeout=900, rules=None))
 
 # ---- engine M ---------------------------------------------------------------------------------------------
 unit(M("c12_mapping", functions=["multiplicative_hash::{reduce,mix,map}", "sharded::Cache::{shard_ids,other_shard_id}"],
@@ -173,14 +177,13 @@ COMMON_ASSUME = ["Kani/CBMC/CaDiCaL verdicts", "the KFS model (harness/kfs.rs): 
 RELY = "rely/guarantee: between any two calls of the operation the shared directories move to any state other participants' protocol steps can produce"
 
 prop("C01", ["plain_get_env", "raw_insert_or_update_basic", "raw_insert_or_touch_basic", "raw_ops_sanity_twin"],
-     ["plain_set_env", "plain_put_env", "sharded_get_01", "sharded_set_01_env", "stack_get_w1r1_nock", "stack_gou_w1r1_nock", "stack_gou_w2r1_nock",
+     ["plain_set_env", "plain_put_env", "sharded_get_01", "sharded_set_absent_env", "stack_get_w1r1_nock", "stack_gou_w1r1_nock", "stack_gou_w2r1_nock",
       "stack_set_temp_w1r1", "plain_set_seq", "plain_put_seq"],
      outside=["byte-granular reads (values are abstracted to content ids; 'complete' is set only by the last write)", "NFS close-to-open semantics",
               "peers that violate the protocol"], assumptions=COMMON_ASSUME + [RELY])
 prop("C02", ["raw_insert_or_update_basic", "raw_insert_or_touch_basic", "c02_cleanup_temp_by_age", "c02_cleanup_temp_missing_dir",
              "raw_apply_update_evict_a_moveback_b", "raw_ops_sanity_twin"],
-     ["plain_set_seq", "plain_put_seq", "plain_set_fault", "sharded_set_01_seq", "sharded_put_10_seq", "stack_gou_w1r1_nock", "stack_set_temp_w1r1",
-      "raw_apply_update_moveback_a_b"],
+     ["plain_set_seq", "plain_put_seq", "plain_set_fault", "sharded_set_absent", "sharded_set_in_secondary", "sharded_put_in_secondary", "stack_gou_w1r1_nock", "stack_set_temp_w1r1"],
      outside=["power-loss reordering of un-fsynced directory updates (documented: directories are not fsynced)",
               "validity is asserted at every call boundary of KFS, i.e. at every point where the process can die between two system calls"],
      assumptions=COMMON_ASSUME)
@@ -193,14 +196,14 @@ prop("C04", ["plain_get_env", "plain_touch_env", "raw_insert_or_touch_basic", "r
      outside=["linearizability is decided as a forward simulation per operation (linearization point = the publishing / opening call), not by enumerating histories"],
      assumptions=COMMON_ASSUME + [RELY])
 prop("C05", ["plain_get_env", "plain_touch_env", "raw_apply_update_evict_a_moveback_b", "raw_collect_a_temp", "raw_ops_sanity_twin"],
-     ["plain_set_env", "plain_put_env", "sharded_set_01_env", "raw_apply_update_moveback_a_b", "raw_collect_ab_sub", "sharded_set_01_seq"],
+     ["plain_set_env", "plain_put_env", "sharded_set_absent_env", "raw_collect_ab_sub", "sharded_set_in_secondary"],
      outside=["adversarial deletion of young temp files (excluded by the property)"], assumptions=COMMON_ASSUME + [RELY])
 prop("C06", ["plain_get_env", "plain_touch_env", "plain_ops_sanity_twin"],
-     ["plain_set_env", "plain_put_env", "sharded_set_01_env"],
+     ["plain_set_env", "plain_put_env", "sharded_set_absent_env"],
      outside=["blocking inside the kernel", "step bounds are asserted as call-count constants under every environment answer, with unwinding assertions on"],
      assumptions=COMMON_ASSUME + [RELY])
 prop("C07", ["c07_prune_glue", "c07_apply_glue", "raw_collect_a_temp", "raw_collect_a_app", "raw_collect_empty_temp", "raw_apply_update_evict_a_moveback_b",
-             "raw_apply_update_moveback_a_b", "raw_ops_sanity_twin"],
+             "raw_ops_sanity_twin"],
      ["raw_collect_ab_sub", "raw_prune_pieces_dotfile_and_a", "c08_n2", "c08_n3_evicted"],
      outside=["listings of more than 3 entries; plans of more than 2 entries", "the composition prune = apply_update . planner . listing is decided on the MIR of prune "
               "with the three callees uninterpreted (engine M); each callee by its own harnesses; the planner itself is C08"],
@@ -217,12 +220,12 @@ prop("C10", ["c10_trigger", "plain_ops_sanity_twin"], ["plain_set_seq", "plain_p
      outside=["concurrent writers (excluded by the property)", "several caches sharing one thread's countdown"],
      assumptions=COMMON_ASSUME + ["after maintenance at most `capacity` files remain (C07)"])
 prop("C11", ["plain_get_seq", "plain_touch_seq", "raw_insert_or_update_basic", "raw_insert_or_touch_basic", "raw_ops_sanity_twin"],
-     ["plain_set_seq", "plain_put_seq", "sharded_get_01", "sharded_get_10", "sharded_touch_01", "sharded_set_01_seq", "sharded_put_10_seq", "stack_set_w1r1"],
+     ["plain_set_seq", "plain_put_seq", "sharded_get_01", "sharded_get_10", "sharded_touch_01", "sharded_set_absent", "sharded_set_in_secondary", "sharded_put_in_secondary", "stack_set_w1r1"],
      outside=["histories are covered as one inductive step from an arbitrary valid state (simulation relation), not enumerated",
               "in-memory load estimates and the trigger countdown are arbitrary in the pre-state (this is what several handles amount to)"],
      assumptions=COMMON_ASSUME)
 prop("C12", ["c12_mapping", "c12_constants", "c12_new_clamps", "sharded_ops_sanity_twin"],
-     ["c12_format_id", "sharded_get_01", "sharded_get_10", "sharded_touch_01", "sharded_set_01_seq", "sharded_put_10_seq"],
+     ["c12_format_id", "sharded_get_01", "sharded_get_10", "sharded_touch_01", "sharded_set_absent", "sharded_set_in_secondary", "sharded_put_in_secondary"],
      outside=["directory names for shard indices >= 2^20", "probe order is checked with the two candidate ids fixed to (0,1) and (1,0)"],
      assumptions=COMMON_ASSUME + ["z3 and cvc5 agree (both consulted on every obligation)"])
 prop("C13", ["stack_get_w1r1_nock", "stack_touch_w1r2", "stack_set_w0r1", "stack_ops_sanity_twin"],
@@ -243,7 +246,7 @@ prop("C17", ["raw_prune_pieces_dotfile_only", "c02_cleanup_temp_by_age", "raw_co
      ["raw_prune_pieces_dotfile_and_a", "raw_collect_ab_sub", "raw_apply_update_evict_a_moveback_b"],
      outside=["nested directories below the cache directory (never listed: directories are skipped)"], assumptions=COMMON_ASSUME)
 prop("C18", ["plain_get_fault", "plain_touch_fault", "plain_ops_sanity_twin"],
-     ["plain_set_fault", "plain_put_fault", "sharded_put_01_fault", "stack_gou_w1r1_fault", "stack_set_temp_w1r1_fault", "stack_set_w1r1_fault"],
+     ["plain_set_fault", "plain_put_fault", "sharded_put_absent_fault", "stack_gou_w1r1_fault", "stack_set_temp_w1r1_fault", "stack_set_w1r1_fault"],
      outside=["more than one failing call per operation", "failures inside the caller's populate function other than its own error return",
               "re-issuing the operation after the fault is covered by the fault-free harnesses starting from arbitrary valid states (C02)"],
      assumptions=COMMON_ASSUME)
